@@ -89,6 +89,9 @@ type Tools struct {
 	// BusyOnce: the first start of that tool in the run fails with ETXTBSY, later starts work
 	BusyOnce map[string]bool
 	busySeen bool
+	// gone: the copies of the tools in /usr/bin have been removed; other copies, in /usr/local/bin,
+	// are found through PATH instead (set by RunLint from RunOpts.ToolMoves)
+	gone bool
 }
 
 // InvKey identifies an invocation independently of the schedule.
@@ -122,7 +125,13 @@ func (t *Tools) LookPath(name string) (string, bool) {
 	}
 	if strings.Contains(name, "/") {
 		// a path (absolute, or relative to the working directory) is used as it is, like exec.LookPath does
+		if t.gone && name == "/usr/bin/"+b {
+			return "", false
+		}
 		return name, true
+	}
+	if t.gone {
+		return "/usr/local/bin/" + b, true
 	}
 	return "/usr/bin/" + b, true
 }
@@ -136,6 +145,9 @@ func (t *Tools) fault(tool, stdin string) ToolFault {
 
 func (t *Tools) CanStart(argv []string, stdin string) int64 {
 	k := InvKey(toolOf(argv), stdin)
+	if t.gone && len(argv) > 0 && argv[0] == "/usr/bin/"+toolOf(argv) {
+		return int64(syscall.ENOENT)
+	}
 	if t.BusyOnce[toolOf(argv)] && !t.busySeen {
 		// whatever is started first for this tool finds its executable busy, once
 		t.busySeen = true
